@@ -590,6 +590,88 @@ Proof. exact MolcasSpec.mcas_example. Qed.
 Example molcas_library_ecp_example : mcasl_ecp_example_stmt.
 Proof. exact MolcasEcpSpec.mcasl_ecp_example. Qed.
 
+(* ---- VeloxChem (Model/Veloxchem.v; electron shells only - the writer is refused for ECP bases; MD5 is an executable
+   Gallina function, RFC 1321).  The library can read back NO file it writes in this format: the writer appends the MD5 of the
+   text with its line ends, the reader recomputes it over the stripped lines joined without them, and the two strings differ for
+   every well-formed input (veloxchem_checksum_texts_differ), so the read-back raises unless MD5 collides
+   (veloxchem_roundtrip_or_raises: the result is exactly the expected data or RuntimeError, never altered data - the shape C03
+   asks for; veloxchem_never_readable_without_collision for an injective hash).  With the checksum out of the way - or with the
+   digest the reader computes - the data come back exactly (veloxchem_reread_exact, veloxchem_read_with_reader_digest). ---- *)
+From BSE Require Import Model.Veloxchem Proofs.VeloxchemDefs.
+From BSE Require Proofs.VeloxchemSpec.
+
+Theorem veloxchem_md5_digest : vlx_md5_digest_stmt.
+Proof. exact VeloxchemSpec.vlx_md5_digest. Qed.
+Print Assumptions veloxchem_md5_digest.
+
+Theorem veloxchem_write_total : vlx_write_total_stmt.
+Proof. exact VeloxchemSpec.vlx_write_total. Qed.
+Print Assumptions veloxchem_write_total.
+
+Theorem veloxchem_roundtrip_or_raises : vlx_roundtrip_partial_stmt.
+Proof. exact VeloxchemSpec.vlx_roundtrip_partial. Qed.
+Print Assumptions veloxchem_roundtrip_or_raises.
+
+Theorem veloxchem_checksum_texts_differ : vlx_checksum_mismatch_stmt.
+Proof. exact VeloxchemSpec.vlx_checksum_mismatch. Qed.
+Print Assumptions veloxchem_checksum_texts_differ.
+
+Theorem veloxchem_never_readable_without_collision : vlx_roundtrip_collision_free_stmt.
+Proof. exact VeloxchemSpec.vlx_roundtrip_collision_free. Qed.
+Print Assumptions veloxchem_never_readable_without_collision.
+
+Theorem veloxchem_roundtrip_refuted : vlx_roundtrip_refuted_stmt.
+Proof. exact VeloxchemSpec.vlx_roundtrip_refuted. Qed.
+Print Assumptions veloxchem_roundtrip_refuted.
+
+Theorem veloxchem_reread_exact : vlx_reread_stmt.
+Proof. exact VeloxchemSpec.vlx_reread_exact. Qed.
+Print Assumptions veloxchem_reread_exact.
+
+Theorem veloxchem_read_with_reader_digest : vlx_read_fixed_stmt.
+Proof. exact VeloxchemSpec.vlx_read_fixed. Qed.
+Print Assumptions veloxchem_read_with_reader_digest.
+
+Theorem veloxchem_no_number_lost : vlx_no_number_lost_stmt.
+Proof. exact VeloxchemSpec.vlx_no_number_lost. Qed.
+Print Assumptions veloxchem_no_number_lost.
+
+Theorem veloxchem_example : vlx_example_stmt.
+Proof. exact VeloxchemSpec.vlx_example. Qed.
+Print Assumptions veloxchem_example.
+
+Theorem veloxchem_fused_refused : vlx_reread_fused_stmt.
+Proof. exact VeloxchemSpec.vlx_reread_fused. Qed.
+Print Assumptions veloxchem_fused_refused.
+
+Theorem veloxchem_general_refused : vlx_reread_general_stmt.
+Proof. exact VeloxchemSpec.vlx_reread_general. Qed.
+Print Assumptions veloxchem_general_refused.
+
+Theorem veloxchem_am_bound : vlx_am_bound_stmt.
+Proof. exact VeloxchemSpec.vlx_am_bound. Qed.
+Print Assumptions veloxchem_am_bound.
+
+Theorem veloxchem_floating : vlx_floating_stmt.
+Proof. exact VeloxchemSpec.vlx_floating. Qed.
+Print Assumptions veloxchem_floating.
+
+Theorem veloxchem_elements : vlx_elements_stmt.
+Proof. exact VeloxchemSpec.vlx_elements_exact. Qed.
+Print Assumptions veloxchem_elements.
+
+Theorem veloxchem_name : vlx_name_stmt.
+Proof. exact VeloxchemSpec.vlx_name. Qed.
+Print Assumptions veloxchem_name.
+
+Theorem veloxchem_cartesian_tag_lost : vlx_reread_cartesian_stmt.
+Proof. exact VeloxchemSpec.vlx_reread_cartesian. Qed.
+Print Assumptions veloxchem_cartesian_tag_lost.
+
+Theorem veloxchem_hand_written_texts : vlx_read_hand_stmt.
+Proof. exact VeloxchemSpec.vlx_read_hand. Qed.
+Print Assumptions veloxchem_hand_written_texts.
+
 (* ---- the whole Gaussian94 file: electron blocks + ECP blocks (Model/G94Ecp.v).  The reader takes the momenta of the potentials
    from the `-ECP lmax nelec` line and the ORDER of the blocks, never from their titles: the round trip holds exactly when the
    momenta are [L, 0, ..., L-1] for L+1 potentials.  (Imported last: the record G94Ecp.gpot shares its field names with
